@@ -13,6 +13,8 @@
 (*   read / sizes          the files read into the bundle (scan.parse      *)
 (*             hook) and their sizes on disk                               *)
 (*   present   which input's marker literal occurs in which emitted file   *)
+(*   exact     the length of the text printed for an input in an emitted   *)
+(*             file, where it can be delimited (unminified output)         *)
 (* The invariants say that the metafile is an exact account of all that.   *)
 (***************************************************************************)
 EXTENDS Integers, Sequences, FiniteSets, TLC, Json
@@ -87,6 +89,14 @@ Attributed(o) == SumBytes({c \in OInputs : c.out = o})
 Overfull == {[path |-> o.path, bytes |-> o.bytes, attributed |-> Attributed(o.path)] : o \in {x \in Outs : Attributed(x.path) > x.bytes}}
 ContributionsBounded == Overfull = {} /\ \A c \in OInputs : c.bytes >= 0 /\ c.inp \in InPaths
 
+\* where the text printed for an input can be delimited in the emitted file
+\* (unminified output, sections between the path comments), the bytes
+\* attributed to the input are exactly the bytes of that text
+Exact == ToSet(Rec.exact)
+Inexact == {[out |-> x.out, inp |-> x.inp, expected |-> x.expected, metafile |-> {c.bytes : c \in {d \in OInputs : d.out = x.out /\ d.inp = x.inp}}] :
+              x \in {y \in Exact : ~\E c \in OInputs : c.out = y.out /\ c.inp = y.inp /\ c.bytes = y.expected}}
+ContributionExact == Inexact = {}
+
 \* an input with a non-zero contribution really has its code in that file
 \* (its marker literal, or for a file-loader input the path of its emitted
 \* copy); an input whose marker is in a file contributes to it; hence a
@@ -115,6 +125,7 @@ Failing ==
   (IF InputBytesExact THEN {} ELSE {"InputBytesExact"}) \cup
   (IF ContributionsBounded THEN {} ELSE {"ContributionsBounded"}) \cup
   (IF ContributionIsPresent THEN {} ELSE {"ContributionIsPresent"}) \cup
+  (IF ContributionExact THEN {} ELSE {"ContributionExact"}) \cup
   (IF InputImportsAreReal THEN {} ELSE {"InputImportsAreReal"})
 
 \* per invariant: the named sets of offending items (all empty when it holds)
@@ -128,6 +139,7 @@ Detail ==
     InputBytesExact |-> [wrongSizes |-> WrongSizes],
     ContributionsBounded |-> [overfull |-> Overfull, notInputs |-> {c \in OInputs : c.inp \notin InPaths}],
     ContributionIsPresent |-> [ghosts |-> Ghosts, unattributed |-> Unattributed],
+    ContributionExact |-> [inexact |-> Inexact],
     InputImportsAreReal |-> DInputImports ]
 Report == PrintT(<<"CASE", ToJson([i |-> i, failing |-> Failing, detail |-> IF Failing = {} THEN [ok |-> [ok |-> {}]] ELSE Detail])>>)
 =============================================================================
